@@ -12,6 +12,11 @@
  *   begin <id> | init <pref>:<nsock> ... | start | stop | add <pref> <nsock> | remove <pref>
  *   ev <pref> <k> <STATE>   the FSM thread of socket k of group <pref> calls rtr_change_socket_state
  *   lu <pref> <k> <0|1>     the FSM thread sets / clears last_update
+ * Built with -DC15_STUBCHECK (and without --wrap) the program instead runs one fixed sequence of
+ * rtr_start/rtr_stop calls on two sockets - one through the REAL functions of rtr/rtr.c (a real
+ * thread, dummy transport whose open fails), one through the stubs - and prints what each observes:
+ * the two halves must be identical (tools/props/C15.py compares them).
+ *
  * Output: "> <op>" then status callbacks, start/stop records, result codes and the configuration
  * as presented by rtr_mgr_for_each_group.  Same format as ocaml/c15_driver.ml.                 */
 #include "rtrlib/rtr_mgr_private.h"
@@ -279,10 +284,104 @@ static void reset_all(void)
 	n_arrays = 0;
 }
 
+#ifdef C15_STUBCHECK
+#include <unistd.h>
+int __real_rtr_start(struct rtr_socket *s);
+void __real_rtr_stop(struct rtr_socket *s);
+/* without --wrap the plain names are the real functions */
+int rtr_start(struct rtr_socket *s);
+void rtr_stop(struct rtr_socket *s);
+
+static char cb_log[2][512];
+static struct hsock *sc_sock[2];
+static volatile int sc_seen_error[2];
+
+static void sc_cb(const struct rtr_socket *sock, const enum rtr_socket_state state, void *a, void *b)
+{
+	int w = (sock == &sc_sock[0]->rtr) ? 0 : 1;
+
+	(void)a;
+	(void)b;
+	if (strlen(cb_log[w]) + 40 < sizeof(cb_log[w])) {
+		strcat(cb_log[w], " ");
+		strcat(cb_log[w], state_name(state));
+	}
+	if (state == RTR_ERROR_TRANSPORT)
+		sc_seen_error[w] = 1;
+}
+
+static void sc_observe(int w, const char *what, int rc)
+{
+	struct rtr_socket *s = &sc_sock[w]->rtr;
+
+	printf("%s rc=%d state=%s lu=%d th=%d cbs=[%s ]\n", what, rc, state_name(s->state), s->last_update != 0,
+	       s->thread_id != 0, cb_log[w]);
+	cb_log[w][0] = 0;
+}
+
+static int stubcheck(void)
+{
+	static struct pfx_table pfxt;
+	static struct spki_table spkit;
+
+	pfx_table_init(&pfxt, NULL);
+	spki_table_init(&spkit, NULL);
+	muted = 1; /* the stubs' own records are not part of this comparison */
+	for (int w = 0; w < 2; w++) {
+		struct rtr_socket **arr = make_sockets(w, 1);
+		struct rtr_socket *s = arr[0];
+		int rc;
+
+		sc_sock[w] = (struct hsock *)s;
+		rtr_init(s, NULL, &pfxt, &spkit, 3600, 7200, 600, RTR_INTERVAL_MODE_DEFAULT_MIN_MAX, sc_cb, NULL, NULL);
+		printf("%s\n", w == 0 ? "real:" : "stub:");
+		sc_observe(w, "init", 0);
+		/* stop a socket that was never started */
+		w == 0 ? rtr_stop(s) : __wrap_rtr_stop(s);
+		sc_observe(w, "stop-never-started", 0);
+		/* start it: the thread returns at once because the state is RTR_SHUTDOWN */
+		rc = w == 0 ? rtr_start(s) : __wrap_rtr_start(s);
+		if (w == 0)
+			usleep(100000);
+		sc_observe(w, "start-in-shutdown", rc);
+		rc = w == 0 ? rtr_start(s) : __wrap_rtr_start(s);
+		sc_observe(w, "start-again", rc);
+		w == 0 ? rtr_stop(s) : __wrap_rtr_stop(s);
+		sc_observe(w, "stop-dead-thread", 0);
+		/* a real run: the dummy transport cannot be opened */
+		rc = w == 0 ? rtr_start(s) : __wrap_rtr_start(s);
+		if (w == 0) {
+			for (int i = 0; i < 300 && !(sc_seen_error[0] && s->state == RTR_CONNECTING); i++)
+				usleep(10000);
+			usleep(50000);
+		} else {
+			rtr_change_socket_state(s, RTR_ERROR_TRANSPORT);
+			rtr_change_socket_state(s, RTR_CONNECTING);
+		}
+		sc_observe(w, "start-run", rc);
+		s->last_update = 1000;
+		w == 0 ? rtr_stop(s) : __wrap_rtr_stop(s);
+		sc_observe(w, "stop-running", 0);
+		w == 0 ? rtr_stop(s) : __wrap_rtr_stop(s);
+		sc_observe(w, "stop-closed", 0);
+		rc = w == 0 ? rtr_start(s) : __wrap_rtr_start(s);
+		if (w == 0)
+			usleep(100000);
+		sc_observe(w, "start-after-stop-closed", rc);
+		w == 0 ? rtr_stop(s) : __wrap_rtr_stop(s);
+		sc_observe(w, "final-stop", 0);
+	}
+	return 0;
+}
+#endif
+
 int main(void)
 {
 	char line[512];
 
+#ifdef C15_STUBCHECK
+	return stubcheck();
+#endif
 	setvbuf(stdout, NULL, _IOFBF, 1 << 16);
 	while (fgets(line, sizeof(line), stdin)) {
 		char *w[64];
